@@ -80,7 +80,10 @@ fn combine<T: Dom>(op: usize, a: VK, c: VK, outer: Option<VK>, k: usize) {
         sa.update(x);
         sc.update(x);
         let want = match (sa.last(), sc.last()) {
-            (Some(p), Some(q)) => { if op == 3 { T::assume(Cond::Ne(q, T::zero())); } Some(match op { 0 => p + q, 1 => p - q, 2 => p * q, _ => p / q }) }
+            (Some(p), Some(q)) => {
+                // Divide is in-domain only for a non-zero divisor: on the comparison branch where it is zero the scenario ends here
+                if op == 3 && q == T::zero() { T::oblige(&format!("{name} t={t}: divisor is zero on this path (out of domain, scenario ends)"), Cond::Bool(true)); return; }
+                Some(match op { 0 => p + q, 1 => p - q, 2 => p * q, _ => p / q }) }
             _ => None,
         };
         let want = match so.as_mut() { Some(o) => { if let Some(w) = want { o.update(w); } o.last() } None => want };
